@@ -37,6 +37,10 @@ CHECKS['C07'] = ('Hypothesis @given cost frames (fixed / variable / label-only s
                  'Generated frames x summary arguments; fixed-cost figures against R8 and generated cost totals; variable-cost report checked for determinism, bounds order and unit equivariance.',
                  'Default names for date/period/cost/response; variable scenario requires a clearly non-zero cost effect (>= 20 scales, n_pre >= 10).', '6 C07')
 
+CHECKS['C18'] = ('Hypothesis @given cooldown frames x metric x level x tails; relations of the statement recomputed from the closed-form posterior; known finding F12 matched by an oracle-side predicate',
+                 'Generated frames incl. the post-analysis colab layout; success of the call, per-date bounds order, counterfactual+pointwise=observed, residuals, last cumulative row vs R8 quantiles.',
+                 'Default names for date/period/cost/response; F12 (non-monotone posterior scale) is a recorded finding, any other failure is a violation.', '6 C18')
+
 PENDING = {}
 
 
